@@ -36,4 +36,8 @@ CONTROLS = [
                             ),
 """, "                            0,\n")],
          expect=r"annotate_ancestry/_idx"),
+    dict(name="BENIGN: local `node` of annotate_ancestry's caller untouched; comment-only change", benign=True,
+         edits=[("cdd/shared/ast_utils.py", "class RewriteAtQuery(NodeTransformer):", "# sync_properties rewrites through this transformer\nclass RewriteAtQuery(NodeTransformer):")]),
+    dict(name="BENIGN: loop variable `_arg` renamed throughout ast_utils.py", benign=True,
+         edits=[("cdd/shared/ast_utils.py", "_arg", "one_arg", "rename")]),
 ]
